@@ -25,7 +25,10 @@ RULE = ("Histories of 1..6 batches x 0..4 blocks written by the real write_block
         "distinct (history, start state, crash point).")
 ASSUMPTIONS = ["crash points are I/O-call and syscall boundaries plus torn writes (no other instruction changes durable state)",
                "directory holds only the node's own blk*.dat files"]
-MAGIC = bytes.fromhex("f9beb4d9")
+# the record magic per network comes from OUR table of constants, never from the library's state
+NET_MAGIC = {"mainnet": bytes.fromhex("f9beb4d9"), "testnet": bytes.fromhex("0b110907"), "regtest": bytes.fromhex("fabfb5da")}
+MAGIC = NET_MAGIC["mainnet"]
+NET = "mainnet"
 SCRATCH = "/dev/shm" if os.path.isdir("/dev/shm") else tempfile.gettempdir()
 
 
@@ -45,7 +48,7 @@ def gen_cases(tier, seed):
         yield "exhaustive", {"max": mx, "first": b0, "alpha": alpha, "depth": 3 if not q else (3 if i % 3 == 0 else 2)}
     for i in range(300 if q else 6000):
         yield "history", {"salt": rng.getrandbits(40), "max": rng.choice([64, 100, 256]), "start": ["empty", "empty", "prepopulated", "twelve_full"][i % 4],
-                          "fork": i % 5 == 0}
+                          "fork": i % 5 == 0, "net": ["mainnet", "testnet", "regtest", "mainnet", "Regtest", "TESTNET", "mainnet"][i % 7]}
     for dn in ("node.data/blocks", "blk.dat.d/blocks", "my.dat", "blkchain/x.dat.y", "blocks.dat/", "a blk b/.dat"):
         for rep in range(2 if q else 8):
             yield "history", {"salt": rng.getrandbits(40), "max": 64, "start": ["empty", "prepopulated"][rep % 2], "fork": False, "dirname": dn}
@@ -61,7 +64,7 @@ def gen_cases(tier, seed):
 
 def required(tier):
     return {"hist.batches": 3000, "hist.rollover.exact_fit": 200, "hist.rollover.one_byte_over": 200, "hist.rollover.new_file": 500,
-            "hist.start.twelve_full": 50, "hist.start.n_files": 20, "hist.start.path_with_dat_or_blk": 10, "hist.forked_batches": 100, "crash.points": 800, "crash.variant.torn": 150,
+            "hist.start.twelve_full": 50, "net.regtest": 40, "net.testnet": 40, "hist.start.n_files": 20, "hist.start.path_with_dat_or_blk": 10, "hist.forked_batches": 100, "crash.points": 800, "crash.variant.torn": 150,
             "crash.variant.writethrough": 150, "crash.variant.buffered": 150, "audit.opens": 3000, "exh.histories": 1500}
 
 
@@ -117,7 +120,7 @@ def _snapshot(d):
 
 def _call(d, blocks, mx):
     import bits.p2p as p2p
-    p2p.set_magic_start_bytes("mainnet")
+    p2p.set_magic_start_bytes(NET)
     saved = p2p.MAX_BLOCKFILE_SIZE
     p2p.MAX_BLOCKFILE_SIZE = mx
     _audit["on"] = True
@@ -238,8 +241,12 @@ def _run_history(ctx, d, mx, batches, model, fork=False, label=""):
 
 
 def run_case(kind, params, ctx):
+    global MAGIC, NET
     _install_audit()
     mx = params["max"]
+    NET = params.get("net", "mainnet")
+    MAGIC = NET_MAGIC[NET.lower()]
+    ctx.count(f"net.{NET.lower()}")
     if kind == "exhaustive":
         alpha = params["alpha"]
         batches_all = [[]] + [[a] for a in alpha] + [[a, b] for a in alpha for b in alpha]
